@@ -1,19 +1,19 @@
 #!/bin/bash
-# tools/confirm_seed.sh <prop> <outdir>  — confirm a seeded change in a scratch worktree:
-#  patch applies; library builds; pinned suite passes with it; demo passes without / fails with it;
-#  then apply it to /repo, run our check (quick), undo.
-prop=$1; out=$2
-wt=/tmp/seed/confirm-$prop
-git -C /repo worktree remove --force $wt 2>/dev/null; rm -rf $wt
-git -C /repo worktree add -q --detach $wt HEAD || exit 2
+# tools/confirm_seed.sh <prop> <outdir> [worktree]  — confirm a seeded change in the scratch worktree it was
+# written for (default /tmp/seed/wt-<prop>, recreated when missing): patch applies; library builds; pinned suite
+# passes with it; demo passes without / fails with it; then apply it to /repo, run our check (quick), undo.
+prop=$1; out=$2; wt=${3:-/tmp/seed/wt-$prop}
+[ -d $wt ] || git -C /repo worktree add -q --detach $wt HEAD || exit 2
+git -C $wt checkout -q -- . ; git -C $wt clean -qfdx
 res=$out/confirm.txt; : > $res
-# demo on the original
-( cd $out && sh ./build.sh $wt $wt/_demo0 >/dev/null 2>&1 ); echo "demo_original_exit=$?" | tee -a $res
+export QHTTPENGINE_SRC=$wt QHTTPENGINE_SOURCE_DIR=$wt
+rundemo() { ( cd $out && BUILD_DIR=$wt/_demo$1 sh ./build.sh $wt $wt/_demo$1 >/dev/null 2>&1 ); echo $?; }
+echo "demo_original_exit=$(rundemo 0)" | tee -a $res
 git -C $wt apply $out/patch.diff && echo "patch_applies=yes" | tee -a $res || { echo "patch_applies=NO" | tee -a $res; exit 1; }
 ( cmake -G Ninja -S $wt -B $wt/_b -DBUILD_TESTS=ON -DCMAKE_BUILD_TYPE=RelWithDebInfo >/dev/null 2>&1 && cmake --build $wt/_b >/dev/null 2>&1 ) && echo "builds=yes" | tee -a $res || echo "builds=NO" | tee -a $res
 ctest --test-dir $wt/_b -j8 --timeout 300 2>&1 | grep -E "tests passed|tests failed" | tee -a $res
-( cd $out && sh ./build.sh $wt $wt/_demo1 >/dev/null 2>&1 ); echo "demo_patched_exit=$?" | tee -a $res
-git -C /repo worktree remove --force $wt; rm -rf $wt
+echo "demo_patched_exit=$(rundemo 1)" | tee -a $res
+git -C $wt checkout -q -- . ; git -C $wt clean -qfdx
 # our check
 git -C /repo apply $out/patch.diff
 ( cd /verif && ./check.sh $prop quick 2>&1 | grep -E "VIOLATION|done in|ERROR" | head -4 ) | tee -a $res
